@@ -86,8 +86,53 @@ def runDetached (setup : Except Err (Bytes × (Bytes → Bytes))) (sink : Stream
       let (st, tr, ls) := runOps DSt.write (DSt.close Wr.write codecPieces sigPkt) (fun s => s.codec.w.bytes.length) ops st0
       answer true tr ls st.codec.w
 
+/-- the armored composition: armor header first (`NewArmor62EncoderStream`), then the packet stream's constructor -/
+def runPacketA (typ : Int) (brand : Bytes) (setup : Except Err (Bytes × Cfg)) (sink : Stream.Sink) (ops : List Op) : String :=
+  let (aok, a0) := FArm.init62 typ brand ({ sink := sink } : Wr)
+  if !aok then answer false [] [a0.w.bytes.length] a0.w
+  else match setup with
+  | .error e => s!"ok init={showErr e} calls=- lens={a0.w.bytes.length} tried={dots a0.w.tried} out={showOut a0.w.bytes}"
+  | .ok (hb, cfg) =>
+    let (ok, st0) := PSt.init FArm.write cfg.pieces a0 hb
+    if !ok then answer false [] [st0.codec.w.w.bytes.length] st0.codec.w.w
+    else
+      let (st, tr, ls) := runOps (PSt.write FArm.write cfg) (armoredClose cfg) (fun s => s.codec.w.w.bytes.length) ops st0
+      answer true tr ls st.codec.w.w
+
+def runDetachedA (typ : Int) (brand : Bytes) (setup : Except Err (Bytes × (Bytes → Bytes))) (sink : Stream.Sink) (ops : List Op) : String :=
+  let (aok, a0) := FArm.init62 typ brand ({ sink := sink } : Wr)
+  if !aok then answer false [] [a0.w.bytes.length] a0.w
+  else match setup with
+  | .error e => s!"ok init={showErr e} calls=- lens={a0.w.bytes.length} tried={dots a0.w.tried} out={showOut a0.w.bytes}"
+  | .ok (hb, sigPkt) =>
+    let (ok, st0) := DSt.init FArm.write codecPieces a0 hb
+    if !ok then answer false [] [st0.codec.w.w.bytes.length] st0.codec.w.w
+    else
+      let (st, tr, ls) := runOps DSt.write (armoredCloseD codecPieces sigPkt) (fun s => s.codec.w.w.bytes.length) ops st0
+      answer true tr ls st.codec.w.w
+
 def handle (toks : List String) : Option String :=
   match toks with
+  | ["st.sender", "enc.a", ma, sender, recips, eph, src, brand, sink, ops] =>
+    match ma.toInt?, mkSender sender, mkRecips recips, mkEph eph, mkSource src, ofHex brand, parseOps ops with
+    | some ma, some sender, some rs, some eph, some src, some brand, some ops =>
+      some (runPacketA mtEncryption brand (encryptSetupRand RealPrims blockSize codecPieces ⟨ma, 0⟩ sender rs eph src) (parseSink sink) ops)
+    | _, _, _, _, _, _, _ => some bad
+  | ["st.sender", "sig.a", ma, signer, src, brand, sink, ops] =>
+    match ma.toInt?, ofHex signer, mkSource src, ofHex brand, parseOps ops with
+    | some ma, some signer, some src, some brand, some ops =>
+      some (runPacketA mtAttached brand (signSetupRand RealPrims sigBlockSize codecPieces ⟨ma, 0⟩ signer src) (parseSink sink) ops)
+    | _, _, _, _, _ => some bad
+  | ["st.sender", "sc.a", sender, boxes, syms, eph, src, brand, sink, ops] =>
+    match mkSender sender, mkSRecips boxes, mkSRecips syms, mkEph eph, mkSource src, ofHex brand, parseOps ops with
+    | some sender, some boxes, some syms, some eph, some src, some brand, some ops =>
+      some (runPacketA mtEncryption brand (signcryptSetupRand RealPrims blockSize codecPieces sender boxes syms eph src) (parseSink sink) ops)
+    | _, _, _, _, _, _, _ => some bad
+  | ["st.sender", "det.a", ma, signer, src, brand, sink, ops] =>
+    match ma.toInt?, ofHex signer, mkSource src, ofHex brand, parseOps ops with
+    | some ma, some signer, some src, some brand, some ops =>
+      some (runDetachedA mtDetached brand (detachedSetupRand RealPrims ⟨ma, 0⟩ signer src) (parseSink sink) ops)
+    | _, _, _, _, _ => some bad
   | ["st.sender", "enc", ma, sender, recips, eph, src, sink, ops] =>
     match ma.toInt?, mkSender sender, mkRecips recips, mkEph eph, mkSource src, parseOps ops with
     | some ma, some sender, some rs, some eph, some src, some ops =>
